@@ -133,3 +133,120 @@ GROUND = [('ground/id-property', 'Macro.id stores a set identifier; Macro.idref 
 BOUNDED = [('bounded/label-ref-orders', 'label / ref in every order: references resolve to the labelled node by identity, dangling ones to a placeholder that is no label',
             'all sequences of <= 5 operations out of 8 (exhaustive permutations), random sequences of <= 7 operations', bounded_orders)]
 CLASSES = {}
+
+
+# ---------------------------------------------------------------- bounded: labels and references through whole documents
+def gen_refdoc(rng):
+    """A random article whose numbered objects carry labels; \\ref's placed before, after and inside the labelled objects, in the
+    document order drawn at random; some references dangle.  Expected texts from an independent reading of LaTeX's numbering."""
+    v = dict(section=0, subsection=0, equation=0, figure=0, table=0, thm=0)
+    thm_within = rng.choice([None, 'section'])
+    pre = '\\newtheorem{thm}{Theorem}' + ('[section]' if thm_within else '')
+    objs, number = [], {}
+    nlab = [0]
+
+    def lab():
+        nlab[0] += 1
+        return 'L%d' % nlab[0]
+    for _ in range(rng.randrange(3, 9)):
+        kind = rng.choice(['section', 'section', 'subsection', 'equation', 'figure', 'table', 'thm', 'enum'])
+        l = lab() if rng.random() < 0.75 else None
+        if kind == 'section':
+            v['section'] += 1
+            v['subsection'] = 0
+            if thm_within:
+                v['thm'] = 0
+            num = '%d' % v['section']
+            objs.append(['\\section{T}%s ' % ('\\label{%s}' % l if l else ''), None])
+        elif kind == 'subsection':
+            v['subsection'] += 1
+            num = '%d.%d' % (v['section'], v['subsection'])
+            objs.append(['\\subsection{T}%s ' % ('\\label{%s}' % l if l else ''), None])
+        elif kind == 'equation':
+            v['equation'] += 1
+            num = '%d' % v['equation']
+            objs.append(['\\begin{equation}%sx=1', '\\end{equation} '])
+            objs[-1][0] = objs[-1][0] % ('\\label{%s}' % l if l else '')
+        elif kind in ('figure', 'table'):
+            v[kind] += 1
+            num = '%d' % v[kind]
+            objs.append(['\\begin{%s}\\caption{c}%s body' % (kind, '\\label{%s}' % l if l else ''), '\\end{%s} ' % kind])
+        elif kind == 'thm':
+            v['thm'] += 1
+            num = ('%d.%d' % (v['section'], v['thm'])) if thm_within else '%d' % v['thm']
+            objs.append(['\\begin{thm}%s statement' % ('\\label{%s}' % l if l else ''), '\\end{thm} '])
+        else:
+            n = rng.randrange(1, 4)
+            k = rng.randrange(n)
+            num = '%d' % (k + 1)
+            its = ''.join('\\item%s it ' % (' \\label{%s}' % l if (l and i == k) else '') for i in range(n))
+            objs.append(['\\begin{enumerate}%s' % its, '\\end{enumerate} '])
+        if l:
+            number[l] = num
+    labels = sorted(number)
+    # references: before / after / inside (the slot after the opening half of an environment)
+    slots = []          # (object index, 'before' | 'inside' | 'after')
+    for i, o in enumerate(objs):
+        slots.append((i, 'before'))
+        if o[1] is not None and not o[0].startswith('\\begin{equation}') and not o[0].startswith('\\begin{enumerate}'):
+            slots.append((i, 'inside'))
+        slots.append((i, 'after'))
+    placed = {}
+    for _ in range(rng.randrange(2, 7)):
+        target = rng.choice(labels + ['nosuch']) if labels else 'nosuch'
+        placed.setdefault(rng.choice(slots), []).append(target)
+    out, expect = [], []
+    for i, o in enumerate(objs):
+        for when in ('before', 'inside', 'after'):
+            if when == 'inside':
+                out.append(o[0])
+            for t in placed.get((i, when), []):
+                out.append(' [[\\ref{%s}]] ' % t)
+                expect.append(number.get(t, '??'))
+            if when == 'inside' and o[1] is not None:
+                out.append(o[1])
+    src = '\\documentclass{article}%s\\begin{document}start %s\\end{document}' % (pre, ''.join(out))
+    return dict(src=src, expect=expect, text=src)
+
+
+def check_refdoc(w):
+    import re
+    from plasTeX.TeX import TeX
+    t = TeX()
+    t.input(w['src'])
+    try:
+        d = t.parse()
+    except Exception as e:
+        return False, 'parsing raised %s: %s' % (type(e).__name__, e)
+    got = []
+    for n in d.getElementsByTagName('ref'):
+        tgt = n.idref.get('label')
+        r = getattr(tgt, 'ref', None) if tgt is not None else None
+        # what the renderers print for a reference: the number of its target (?? when the label is unknown)
+        got.append(r.textContent if r is not None else '??')
+    if got != w['expect']:
+        i = next((j for j, (a, b) in enumerate(zip(got, w['expect'])) if a != b), min(len(got), len(w['expect'])))
+        return False, 'reference #%d prints %r, LaTeX gives %r (all: %r vs %r)' % (i, got[i:i + 1], w['expect'][i:i + 1], got, w['expect'])
+    return True, ''
+
+
+def bounded_refdocs(budget, rng):
+    import time
+    t0, n, seen, samples = time.time(), 0, set(), []
+    while time.time() - t0 < budget or n < 60:
+        w = gen_refdoc(rng)
+        n += 1
+        if w['src'] not in seen:
+            seen.add(w['src'])
+            if len(samples) < 2:
+                samples.append(w['src'][:500])
+        ok, dd = check_refdoc(w)
+        if not ok:
+            return False, n, dd, dict(text=w['src'], expect=w['expect'])
+    return True, n, '', None, dict(distinct=len(seen), samples=samples, rule='random articles of the grammar (see bound); distinct = source not seen before')
+
+
+BOUNDED.append(('bounded/ref-documents', 'every \\ref prints the number of the object its label is attached to - wherever the reference stands relative to the label - '
+                'and ?? when the label does not exist',
+                'random articles: 3-8 objects among sections, subsections, equations, figures, tables (label after the caption), theorems (plain or numbered within '
+                'sections), enumerate items; 75% labelled; 2-6 references before / inside / after the objects in random order, some dangling', bounded_refdocs))
